@@ -133,6 +133,7 @@ pub fn gen_plan(prop: &str, base_seed: u64, index: u64) -> Plan {
     match prop {
         "C01" | "C02" | "C03" | "C04" => crate::fam_comm::generate(prop, &mut rng, &mut plan, index),
         "C09" | "C10" | "C11" => crate::fam_status::generate(prop, &mut rng, &mut plan, index),
+        "C08" if index % 2 == 1 => crate::fam_pipe::generate(prop, &mut rng, &mut plan, index),
         "C05" | "C06" | "C07" | "C08" | "C15" | "C17" | "C18" => crate::fam_spawn::generate(prop, &mut rng, &mut plan, index),
         "C12" => crate::fam_drop::generate(&mut rng, &mut plan, index),
         "C16" => crate::fam_builder::generate(&mut rng, &mut plan, index),
